@@ -193,6 +193,47 @@ PROPS["C13"] = {
     "level_note": "Held on generated + shipped documents; repo fixtures that do not parse are counted as not-accepted and skipped.",
 }
 
+PROPS["C04"] = {
+    "shards": 16,
+    "quick_budget_s": 60,
+    "thorough_budget_s": 900,
+    "floors": {"any": {"compositions-equal-to-the-reference-evaluation": 8000, "ill-formed-programs-rejected-with-the-right-diagnostic": 5000,
+                       "instantiations-compared": 15000, "exports-compared": 10000,
+                       "rule:inferred:1-package-path-of-the-instance": 300, "rule:inferred:2-import-or-export-name": 50,
+                       "rule:inferred:3-unique-path-ending-with-local-name": 80, "rule:inferred:4-local-name": 100,
+                       "rule:named:identifier-matches-unique-path": 1000, "rule:named:identifier-itself": 800, "rule:named:string-is-exact": 2000,
+                       "rule:spread:fills-unspecified-arguments-in-order": 2000, "rule:fill:implicit-import": 10000,
+                       "rule:access:unique-path-ending-with-id": 2000, "rule:access:identifier-itself": 4000, "rule:named-access:exact-name": 10000,
+                       "rule:export:as-name": 5000, "rule:export:import-or-accessed-name": 3000, "rule:export:package-path-of-the-instance": 1500,
+                       "rule:export:spread-skips-existing-names": 2000, "rule:import:as-name": 2000, "rule:import:path-is-the-name": 2000,
+                       "rule:import:local-name-is-the-name": 3000,
+                       "fault:UndefinedName": 200, "fault:DuplicateName": 200, "fault:MissingArgument": 60, "fault:DuplicateArgument": 30,
+                       "fault:AccessOnNonInstance": 500, "fault:SpreadOfNonInstance": 500, "fault:FillNotLast": 40, "fault:SpreadArgumentNoMatch": 200,
+                       "fault:DuplicateExportName": 200, "fault:UnknownArgumentName": 300, "fault:ArgumentTypeMismatch": 60,
+                       "fault:MissingExport": 500, "fault:ExportNeedsName": 400}},
+    "rule": "A fixed library of 7 component packages (a source exporting everything; consumers importing interface paths `ns:lib/a`, `ns:lib/b`, a "
+            "versioned `ns:ver/d@1.2.0`, two paths with the same last segment `ns:lib/a` + `ns:other/a`, plain function and instance imports, "
+            "and one importing both `ns:lib/a` and a plain `a`) and 3 WIT packages. Each case builds a program of 2-9 statements as a small AST: "
+            "imports by path / inline interface / function type with and without `as`, lets of `new` (inferred, identifier-named, string-named, "
+            "spread and `...` arguments in random order, nested `new` and parentheses in argument values), access and named-access chains, exports "
+            "with inferred name, `as` and spread; local names are drawn from the last segments of the library's paths so that every inference "
+            "rule competes. One program in three then receives one fault (undefined name, duplicate name, missing / duplicate / unknown / "
+            "ill-typed argument, `...` not last, access or spread of a non-instance, spread without match, missing export, duplicate export, "
+            "export without a name). The reference evaluator M3, written from LANGUAGE.md, evaluates the AST to provenance terms "
+            "(instantiation = package hash + argument name -> source term; export name -> term; import names) or to the fault that the first "
+            "ill-formed statement has. wac parses the printed text, resolves and encodes it (define_components, validate); the independent "
+            "decoder D1 gives the output's terms. Checked: instantiations equal as multisets, exports by name and binding, import names; a "
+            "program M3 rejects is rejected by wac with the corresponding diagnostic and vice versa. Non-trivial: every program; distinct by "
+            "the set of reference rules exercised, the mutation and the outcome.",
+    "assumptions": ["LANGUAGE.md does not say which name an export statement infers for an instance that has both a package path and an import name, nor the order in which "
+                    "several faults of one statement are reported: the evaluator follows the implementation there (path first; argument order)",
+                    "type compatibility of an argument is decided on type identities of the fixed library (same interface / same signature), which is what C07 checks in general",
+                    "type statements (interface/world/type declarations) are C05's subject and do not occur in these programs"],
+    "technique": "runtime monitor: reference evaluator (executable model of LANGUAGE.md) + independent decoder on the encoded output",
+    "level_text": "Every generated program is evaluated by an executable reading of LANGUAGE.md and the wiring decoded from wac's output must be the same composition.",
+    "level_note": "Held on the generated programs over one fixed package library; other library shapes are exercised by C01-C03.",
+}
+
 PROPS["C05"] = {
     "shards": 16,
     "quick_budget_s": 60,
